@@ -105,6 +105,12 @@ Theorem C01_mdvd_doc_exact : forall crlf f cues, fps_dom f = true -> forallb mdv
 Proof. exact mdvd_doc_exact. Qed.
 Print Assumptions C01_mdvd_doc_exact.
 
+(* ---- repaired defect #7 on record: the pre-fix scaling of a fraction longer than three digits ---- *)
+Theorem C01_dfxp_long_fraction_refuted :
+  exists ds, digits_ok ds = true /\ dfxp_fraction_unfixed (digits_str ds) <> Ok (us (frac_q ds)).
+Proof. exact dfxp_long_fraction_refuted. Qed.
+Print Assumptions C01_dfxp_long_fraction_refuted.
+
 (* ---- non-vacuity ------------------------------------------------------------ *)
 Example C01_ex_srt : srt_to_micro (lit "025:01:02,003") = Ok 90062003000.
 Proof. vm_compute. reflexivity. Qed.
